@@ -50,7 +50,8 @@ def scripts_for(pid, tier, seed, rep):
     scripts = [("tlc", h) for h in hists]
     for i in range(n_rand):
         ln = rng.choice([20, 40, 80, 200]) if tier == "thorough" else rng.choice([20, 40, 80])
-        scripts.append(("random", cc.random_script(rng, ln, lose=(pid == "C03"), events=(pid != "C01"))))
+        # C01 is about commands and replies; every other of its random scripts also has events and listeners around them
+        scripts.append(("random", cc.random_script(rng, ln, lose=(pid == "C03"), events=(pid != "C01" or i % 2 == 1))))
     if pid == "C03":
         # crash points: loss injected at every step of a base script and at byte offsets of the pending line
         base = [s for src, s in scripts if src == "tlc"][: (6 if tier == "quick" else 60)]
